@@ -19,7 +19,7 @@ from ..findings import Reporter
 from ..tlaval import dump_chunks, parse, parse_state
 
 PROP = "C08"
-CLASSES = ["plain", "empty", "quote", "backslash", "bsquote", "newline", "tab", "ctrl", "nonascii", "astral", "trailbs", "jsonish", "linesep"]
+CLASSES = ["plain", "empty", "quote", "backslash", "bsquote", "newline", "tab", "ctrl", "nonascii", "astral", "trailbs", "jsonish", "linesep", "pathshape"]
 INSTANCES = {
     "plain": ["alpha", "Beta_2", "x"],
     "empty": [""],
@@ -34,6 +34,8 @@ INSTANCES = {
     "trailbs": ["ab\\", "x\\\\"],
     "jsonish": ['", "x": "', '"}, {"', "\\u0041", "</script>"],
     # everything str.splitlines() / a text-mode reader may take for a line break, followed by a visible character
+    # path strings that are not in normalised form: a report stores the strings it was given, whatever they look like
+    "pathshape": ["./x", "a//b", "a/../b", "a/./b", "..", "a/", " a", "a "],
     "linesep": ["a\u2028b", "x\u2029y", "p\x85q", "v\x0bw", "f\x0cg", "s\x1ct\x1du\x1ev"],
 }
 BOUNDS = {"quick": dict(MaxFiles=2, MaxMeas=1, MaxSpecial=1, inst=1, shapes='{"top", "nested", "deep"}'), "thorough": dict(MaxFiles=3, MaxMeas=1, MaxSpecial=1, inst=3, shapes='{"top", "nested", "deep"}')}
